@@ -19,18 +19,18 @@ pub fn case_of(class: &str, text: &str) -> Case {
     Case { class: class.to_string(), input: Sx::tagged("q", vec![Sx::bytes(text.as_bytes())]) }
 }
 
-/// statements every run includes: the witnesses of the refutation lemmas of Props/C12.v and one
+/// statements every run includes: the former panic witnesses (C12_former_witnesses_repaired) and one
 /// representative per unsupported construct named in the property text
 pub const PINNED: [(&str, &str); 26] = [
-    ("pinned-panic", "SELECT i FROM t LIMIT 1.5"),
-    ("pinned-panic", "SELECT i FROM t LIMIT 99999999999999999999999"),
-    ("pinned-panic", "SELECT i FROM t LIMIT 1 OFFSET 1.5"),
-    ("pinned-panic", "SELECT \"\"\"\" FROM t"),
-    ("pinned-panic", "SELECT \"\"\"é\" FROM t"),
-    ("pinned-panic", "SELECT \"i\" = é FROM t"),
-    ("pinned-panic", "SELECT i FROM \"t\".é"),
-    ("pinned-panic", ""),
-    ("pinned-panic", ";"),
+    ("pinned", "SELECT i FROM t LIMIT 1.5"),
+    ("pinned", "SELECT i FROM t LIMIT 99999999999999999999999"),
+    ("pinned", "SELECT i FROM t LIMIT 1 OFFSET 1.5"),
+    ("pinned", "SELECT \"\"\"\" FROM t"),
+    ("pinned", "SELECT \"\"\"é\" FROM t"),
+    ("pinned", "SELECT \"i\" = é FROM t"),
+    ("pinned", "SELECT i FROM \"t\".é"),
+    ("pinned", ""),
+    ("pinned", ";"),
     ("pinned", "SELECT i FROM t LIMIT 18446744073709551615"),
     ("pinned", "SELECT i FROM t JOIN u ON 1 = 1"),
     ("pinned", "SELECT i, COUNT(1) FROM t GROUP BY i"),
@@ -83,6 +83,14 @@ impl Suite for Parse {
             }
         };
         let accepted = reduced.tag() == "ok";
+        // the premise of C12_total: every reduced AST handed to the model satisfies the parser invariants
+        outs.push(Outcome {
+            model: Some("wf".into()),
+            model_input: Some(reduced.clone()),
+            impl_out: Some(Sx::boolean(true)),
+            nontrivial: false,
+            ..Default::default()
+        });
         let t = text.clone();
         let res = std::panic::catch_unwind(move || parse_query(&t));
         match res {
